@@ -127,72 +127,92 @@ def init (src : List (Key × Nat × Int)) : St :=
     auth := .idle, invAll := fun _ => [], episodes := 0,
     flips := if c.isEmpty then 1 else 0, removed := [], emptyHits := if c.isEmpty then 1 else 0 }
 
+def setPc (s : St) (r : Nat) (pc : Pc) : St := { s with reqs := upd s.reqs r pc }
+
+/-- `invalidate`, 1st segment, when `key in _current and _current[key].info is info` holds:
+    `c` (the current item) is flushed, remembered (`[-2:] + [c]`) and deleted; if nothing is left:
+    `_ready = False; notify_all(); await wait_for(lambda: _ready)` — which always blocks here. -/
+def invalHit (s : St) (r : Nat) (k : Key) (it c : Item) : St :=
+  if (erase k s.cur).isEmpty then
+    { s with cur := erase k s.cur,
+             inv := upd s.inv k (lastN 2 (s.inv k) ++ [c]),
+             invAll := upd s.invAll k (s.invAll k ++ [c]),
+             removed := c.id :: s.removed,
+             ready := false,
+             flips := if s.ready then s.flips + 1 else s.flips,
+             reqs := upd s.reqs r (.invalWaiting k it) }
+  else
+    { s with cur := erase k s.cur,
+             inv := upd s.inv k (lastN 2 (s.inv k) ++ [c]),
+             invAll := upd s.invAll k (s.invAll k ++ [c]),
+             removed := c.id :: s.removed,
+             reqs := upd s.reqs r (.postYield k it) }
+
+/-- `invalidate`, 1st segment, when the identity check fails (the credential was already replaced
+    or removed by someone else): nothing is removed; the caller blocks only if nothing is left. -/
+def invalMiss (s : St) (r : Nat) (k : Key) (it : Item) : St :=
+  if s.cur.isEmpty then
+    { s with ready := false,
+             flips := if s.ready then s.flips + 1 else s.flips,
+             emptyHits := if s.ready then s.emptyHits + 1 else s.emptyHits,
+             reqs := upd s.reqs r (.invalWaiting k it) }
+  else setPc s r (.postYield k it)
+
+/-- is `it` (by identity) the current item of key `k`? -/
+def isCurrent (c : Cur) (k : Key) (it : Item) : Bool :=
+  match lookup k c with
+  | some x => decide (x.id = it.id)
+  | none => false
+
+def populated (s : St) (src : List (Key × Nat × Int)) : St :=
+  { s with cur := (accept s.inv src s.cur s.nextId).1, nextId := (accept s.inv src s.cur s.nextId).2,
+           ready := true, auth := .idle }
+
 def step (s : St) : Label → Option St
   | .start r =>
     match s.reqs r with
-    | .idle | .done _ => some { s with reqs := upd s.reqs r .acquiring }
+    | .idle | .done _ => some (setPc s r .acquiring)
     | _ => none
   | .acquire r k =>
     match s.reqs r, s.ready, lookup k s.cur with
-    | .acquiring, true, some it =>
-      if isTop s.cur it then some { s with reqs := upd s.reqs r (.using k it) } else none
+    | .acquiring, true, some it => if isTop s.cur it then some (setPc s r (.using k it)) else none
     | _, _, _ => none
   | .acquireFail r =>
     match s.reqs r, s.ready, s.cur with
-    | .acquiring, true, [] => some { s with reqs := upd s.reqs r (.done .loginError) }
+    | .acquiring, true, [] => some (setPc s r (.done .loginError))
     | _, _, _ => none
   | .ok r =>
     match s.reqs r with
-    | .using _ _ => some { s with reqs := upd s.reqs r (.done .ok) }
+    | .using _ _ => some (setPc s r (.done .ok))
     | _ => none
   | .fail r =>
     match s.reqs r with
-    | .using _ _ => some { s with reqs := upd s.reqs r (.done .error) }
+    | .using _ _ => some (setPc s r (.done .error))
     | _ => none
   | .unauth r =>
     match s.reqs r with
-    | .using k it => some { s with reqs := upd s.reqs r (.invalidating k it) }
+    | .using k it => some (setPc s r (.invalidating k it))
     | _ => none
   | .inval r =>
     match s.reqs r with
     | .invalidating k it =>
-      -- `key in _current and _current[key].info is info`
-      let hit : Option Item :=
-        match lookup k s.cur with
-        | some c => if c.id = it.id then some c else none
-        | none => none
-      let cur' := match hit with | some _ => erase k s.cur | none => s.cur
-      let inv' := match hit with
-        | some c => upd s.inv k (lastN 2 (s.inv k) ++ [c])
-        | none => s.inv
-      let invAll' := match hit with
-        | some c => upd s.invAll k (s.invAll k ++ [c])
-        | none => s.invAll
-      let removed' := match hit with | some c => c.id :: s.removed | none => s.removed
-      if cur'.isEmpty then
-        -- `_ready = False; notify_all(); await wait_for(lambda: _ready)` — always blocks here
-        some { s with cur := cur', inv := inv', invAll := invAll', removed := removed',
-                      ready := false,
-                      flips := if s.ready then s.flips + 1 else s.flips,
-                      emptyHits := if s.ready && hit.isNone then s.emptyHits + 1 else s.emptyHits,
-                      reqs := upd s.reqs r (.invalWaiting k it) }
-      else
-        some { s with cur := cur', inv := inv', invAll := invAll', removed := removed',
-                      reqs := upd s.reqs r (.postYield k it) }
+      match lookup k s.cur with
+      | some c => if c.id = it.id then some (invalHit s r k it c) else some (invalMiss s r k it)
+      | none => some (invalMiss s r k it)
     | _ => none
   | .invalWake r =>
     match s.reqs r, s.ready with
     | .invalWaiting k it, true =>
-      if s.cur.isEmpty then some { s with reqs := upd s.reqs r (.done .loginError) }
-      else some { s with reqs := upd s.reqs r (.postYield k it) }
+      -- `if not self._current: raise LoginError(...) from exc`
+      if s.cur.isEmpty then some (setPc s r (.done .loginError))
+      else some (setPc s r (.postYield k it))
     | _, _ => none
   | .post r =>
     match s.reqs r with
     | .postYield k it =>
       -- `yielded_key in _current and _current[yielded_key] is yielded_item` → break
-      let same := match lookup k s.cur with | some c => decide (c.id = it.id) | none => false
-      if same then some { s with reqs := upd s.reqs r (.done .impossible) }
-      else some { s with reqs := upd s.reqs r .acquiring }
+      if isCurrent s.cur k it then some (setPc s r (.done .impossible))
+      else some (setPc s r .acquiring)
     | _ => none
   | .authStart =>
     match s.auth, s.ready with
@@ -200,9 +220,7 @@ def step (s : St) : Label → Option St
     | _, _ => none
   | .populate src =>
     match s.auth with
-    | .running =>
-      let (c, n) := accept s.inv src s.cur s.nextId
-      some { s with cur := c, nextId := n, ready := true, auth := .idle }
+    | .running => some (populated s src)
     | .idle => none
 
 def run (s : St) : List Label → Option St
